@@ -12,6 +12,9 @@ func init() {
 			rulePure(c)
 			ruleDelegate(c, []string{"Marshal"})
 			ruleEfaceDirect(c)
+			// history independence: what a tagged use registers must not change a later untagged use
+			rulePendingKey(c)
+			ruleAppendTarget(c)
 		},
 	})
 }
